@@ -157,6 +157,37 @@ def run(chk):
         chk.bad('C25-R3', 'Message::new', 'clamp', 'Message::new clamps `size` to u16::MAX but keeps the whole payload: send_msg then writes more payload bytes than the header announces', RS, clamps[0][0]['l'])
     else:
         chk.ok('C25-R3', 'Message::new', sample='Message::new: size == data.len() on every path')
+    # the length encoded must be the length of the very bytes object that is written as payload
+    assigns = {}
+    for n in ast.walk(meth['send_msg']):
+        if isinstance(n, ast.Assign) and len(n.targets) == 1 and isinstance(n.targets[0], ast.Name):
+            assigns[n.targets[0].id] = n.value
+
+    def resolve(e, depth=0):
+        while isinstance(e, ast.Name) and e.id in assigns and depth < 5:
+            e = assigns[e.id]
+            depth += 1
+        return e
+    for n in ast.walk(meth['send_msg']):
+        if isinstance(n, ast.Call) and isinstance(n.func, ast.Attribute) and n.func.attr == 'to_bytes' and n.args and isinstance(n.args[0], ast.Constant) and n.args[0].value == 2:
+            length_expr = resolve(n.func.value)
+            # payload = the last operand of the `+` chain passed to send/sendall (or assigned and then sent)
+            payload = None
+            for c in ast.walk(meth['send_msg']):
+                if isinstance(c, ast.Call) and isinstance(c.func, ast.Attribute) and c.func.attr in ('send', 'sendall') and c.args:
+                    e = resolve(c.args[0])
+                    if isinstance(e, ast.BinOp) and isinstance(e.op, ast.Add):
+                        payload = e.right
+            if payload is None:
+                chk.lost.append('repl_server.send_msg: cannot find the payload operand of the frame')
+                break
+            ok = isinstance(length_expr, ast.Call) and isinstance(length_expr.func, ast.Name) and length_expr.func.id == 'len' and length_expr.args and \
+                ast.dump(resolve(length_expr.args[0])) == ast.dump(resolve(payload))
+            if ok:
+                chk.ok('C25-R3', 'py-size-is-len-of-payload', sample='send_msg: size = len(%s), payload = %s' % (ast.unparse(length_expr.args[0]), ast.unparse(payload)))
+            else:
+                chk.bad('C25-R3', 'repl_server.MessageStream.send_msg', 'size!=len(payload)', 'send_msg writes the size field from `%s` but the payload written is `%s`: '
+                        'for non-ASCII text the announced length differs from the bytes sent' % (ast.unparse(length_expr), ast.unparse(resolve(payload))), PY, n.lineno)
     guarded = False
     for n in ast.walk(meth['send_msg']):
         if isinstance(n, (ast.If, ast.Assert, ast.While)) and ('65535' in ast.unparse(n.test) or '0xffff' in ast.unparse(n.test).lower() or '1 << 16' in ast.unparse(n.test)):
